@@ -52,7 +52,7 @@ def gen_metrics(rnd, n_einsums=None, force=None):
     n = n_einsums or rnd.choice([1, 1, 2, 2, 3, 3, 4])
     decl = {}
     exprs = []
-    reused = False
+    reused = broadcast = False
     fresh = iter("ABCDEFGHIJKLMNOPQRSVWXY")
     outs = ["T", "U", "V", "Z"]
     prev = None
@@ -98,6 +98,13 @@ def gen_metrics(rnd, n_einsums=None, force=None):
             decl[name] = [r for r in perm if r in missing]
             facs.append(name)
         out_ranks = [r for r in ranks if rnd.random() < 0.6] or [ranks[0]]
+        spare = [r for r in perm if r not in ranks]
+        if spare and rnd.random() < 0.08:
+            # an output-only (broadcast) rank: iterated over the output alone
+            bc = rnd.choice(spare)
+            out_ranks = [r for r in perm if r in out_ranks or r == bc]
+            ranks = [r for r in perm if r in ranks or r == bc]
+            broadcast = True
         decl[out] = out_ranks
         rnd.shuffle(facs)
         exprs.append(Einsum(_acc(out, out_ranks), [Term("times", [_acc(f, decl[f]) for f in facs])]))
@@ -327,6 +334,8 @@ def gen_metrics(rnd, n_einsums=None, force=None):
     tags = ["metrics", "m-einsums%d" % n, "m-configs%d" % nconf]
     if any("lf_leader_not_first" in ei for ei in einfo):
         tags.append("lf-leader-not-first")
+    if broadcast:
+        tags.append("m-output-only-rank")
     if reused:
         tags.append("m-input-read-by-two-einsums")
     if any(ei.get("time_shuffled") for ei in einfo):
